@@ -70,6 +70,7 @@ impl<T> Object<T> {
     pub fn take(mut this: Self) -> T {
         if let Some(pool) = this.pool.upgrade() {
             let _ = pool.size.fetch_sub(1, Ordering::Relaxed);
+            verif_point!("utake.add_permits");
             pool.size_semaphore.add_permits(1);
         }
         this.obj.take().unwrap()
@@ -84,8 +85,11 @@ impl<T> Drop for Object<T> {
                     let mut queue = pool.queue.lock().unwrap();
                     queue.push(obj);
                 }
+                verif_point!("uret.available");
                 let _ = pool.available.fetch_add(1, Ordering::Relaxed);
+                verif_point!("uret.add_permits");
                 pool.semaphore.add_permits(1);
+                verif_point!("uret.cleanup");
                 pool.clean_up();
             }
         }
@@ -193,11 +197,13 @@ impl<T> Pool<T> {
             TryAcquireError::NoPermits => PoolError::Timeout,
             TryAcquireError::Closed => PoolError::Closed,
         })?;
+        verif_point!("uget.pop");
         let obj = {
             let mut queue = inner.queue.lock().unwrap();
             queue.pop().unwrap()
         };
         permit.forget();
+        verif_point!("uget.available");
         let _ = inner.available.fetch_sub(1, Ordering::Relaxed);
         Ok(Object {
             pool: Arc::downgrade(&self.inner),
@@ -232,11 +238,13 @@ impl<T> Pool<T> {
                 .map_err(|_| PoolError::Closed),
             (Some(_), None) => Err(PoolError::NoRuntimeSpecified),
         }?;
+        verif_point!("uget.pop");
         let obj = {
             let mut queue = inner.queue.lock().unwrap();
             queue.pop().unwrap()
         };
         permit.forget();
+        verif_point!("uget.available");
         let _ = inner.available.fetch_sub(1, Ordering::Relaxed);
         Ok(Object {
             pool: Arc::downgrade(&self.inner),
@@ -257,6 +265,7 @@ impl<T> Pool<T> {
         match self.inner.size_semaphore.acquire().await {
             Ok(permit) => {
                 permit.forget();
+                verif_point!("uadd.size");
                 self._add(object);
                 Ok(())
             }
@@ -275,6 +284,7 @@ impl<T> Pool<T> {
         match self.inner.size_semaphore.try_acquire() {
             Ok(permit) => {
                 permit.forget();
+                verif_point!("uadd.size");
                 self._add(object);
                 Ok(())
             }
@@ -292,11 +302,14 @@ impl<T> Pool<T> {
     /// the `size_semaphore`.
     fn _add(&self, object: T) {
         let _ = self.inner.size.fetch_add(1, Ordering::Relaxed);
+        verif_point!("uadd.push");
         {
             let mut queue = self.inner.queue.lock().unwrap();
             queue.push(object);
         }
+        verif_point!("uadd.available");
         let _ = self.inner.available.fetch_add(1, Ordering::Relaxed);
+        verif_point!("uadd.add_permits");
         self.inner.semaphore.add_permits(1);
     }
 
@@ -322,7 +335,9 @@ impl<T> Pool<T> {
     /// [`PoolError::Closed`] immediately.
     pub fn close(&self) {
         self.inner.semaphore.close();
+        verif_point!("uclose.size_sem");
         self.inner.size_semaphore.close();
+        verif_point!("uclose.clear");
         self.inner.clear();
     }
 
@@ -346,6 +361,31 @@ impl<T> Pool<T> {
             } else {
                 0
             },
+        }
+    }
+
+    /// Read-only snapshot of the pool internals. The queued objects are
+    /// visited bottom to top. Never blocks: if the queue mutex is held the
+    /// `queue_len` field of the snapshot is `None` and nothing is visited.
+    #[cfg(deadpool_verif)]
+    pub fn verif_snapshot(&self, mut visit: impl FnMut(&T)) -> crate::verif::UnmanagedSnapshot {
+        let queue_len = match self.inner.queue.try_lock() {
+            Ok(queue) => {
+                for obj in queue.iter() {
+                    visit(obj);
+                }
+                Some(queue.len())
+            }
+            Err(_) => None,
+        };
+        crate::verif::UnmanagedSnapshot {
+            permits: self.inner.semaphore.available_permits(),
+            size_permits: self.inner.size_semaphore.available_permits(),
+            closed: self.inner.semaphore.is_closed(),
+            size_closed: self.inner.size_semaphore.is_closed(),
+            size: self.inner.size.load(Ordering::Relaxed),
+            available: self.inner.available.load(Ordering::Relaxed),
+            queue_len,
         }
     }
 }
@@ -377,6 +417,7 @@ impl<T> PoolInner<T> {
     /// don't contain any [`Object`]s.
     fn clean_up(&self) {
         if self.is_closed() {
+            verif_point!("ucleanup.clear");
             self.clear();
         }
     }
